@@ -204,6 +204,8 @@ func engineFor(prop string, t *testing.T) Engine {
 		return seqEngine{}
 	case "C03", "C04", "C06", "C09":
 		return crashEngine{}
+	case "C08", "C19":
+		return damageEngine{}
 	}
 	return extraEngineFor(prop, t)
 }
